@@ -237,13 +237,59 @@ def run_case(tid, seed, cfgcls, workdir, thorough):
     return {'tid': tid, 'cfg': cfg, 'meta': meta, 'ev': ev}
 
 
+SHIPPED = {'CUR': ('CUR_map.gro', 'CUR_CG.itp', 'CUR_AA.gro', 'CUR_AA.itp'),
+           'VTE': ('VTE_map.gro', 'vitamin_E_CG.itp', 'VTE_AA.gro', 'VTE_AA.itp'),
+           'BF4': ('BF4_CG.gro', 'BF4_CG.itp', 'BF4_AA.gro', 'BF4_AA.itp'),
+           'BMIM': ('system_bmimbf4_cg.gro', 'BMIM_CG.itp', 'BMIM_AA.gro', 'BMIM_AA.itp'),
+           'PROT': ('Protein_CG.gro', 'Protein_CG.itp', 'Protein_AA.gro', 'Protein_AA.itp')}
+
+
+def shipped_case(tid, seed, name, swap, types):
+    """a shipped molecule pair (coarse-grained / atomistic), either one as the start molecule"""
+    import gaddlemaps
+    from gaddlemaps.components import Molecule, System
+    D = gaddlemaps.DATA_FILES_PATH
+    a, b, c, d = SHIPPED[name]
+    cg = System(D[a], D[b])[0] if name == 'BMIM' else Molecule.from_files(D[a], D[b])
+    aa = Molecule.from_files(D[c], D[d])
+    start, end = (aa, cg) if swap else (cg, aa)
+
+    def edges(m):
+        return sorted({(min(i, j), max(i, j)) for i, at in enumerate(m) for j in at.bonds})
+    eS, eE = edges(start), edges(end)
+    nS, nE = len(start), len(end)
+    mob_n, mob_e = (nS, eS) if nS < nE else (nE, eE)
+    tree = len(mob_e) == mob_n - 1
+    if types is not None and 2 in types and mob_n < 2:
+        types = (0,)
+    kw = {'restrictions': None, 'deformation_types': types, 'ignore_hydrogens': bool(seed % 2)}
+    eff = types if types is not None else ((0,) if (nS == 1 or nE == 1) else (0, 1, 2))
+    meta = {'seed': seed, 'nS': nS, 'nE': nE, 'types': list(types) if types else 'None', 'factor': 1, 'ignoreH': kw['ignore_hydrogens'],
+            'restr': 'None', 'tlc_case': False, 'shipped': name, 'swap': swap, 'degenerate': False, 'reassign': ''}
+    cfg = {'nS': nS, 'nE': nE, 'types': sorted(set(eff)), 'tree': tree}
+    try:
+        ev, dig = one_alignment(start, end, eS, eE, kw, 1, seed % (2 ** 32))
+        _e2, dig2 = one_alignment(start, end, eS, eE, kw, 1, seed % (2 ** 32), observe=False)
+        ev.append({'op': 'Repeat', 'same': bool(dig == dig2)})
+    except ScheduleExhausted:
+        return None
+    except Exception as exc:
+        import traceback
+        ev = [{'op': 'Exception', 'type': type(exc).__name__, 'text': traceback.format_exc()[-700:]}]
+    meta['steps'] = sum(1 for e in ev if e['op'] == 'Step')
+    return {'tid': tid, 'cfg': cfg, 'meta': meta, 'ev': ev}
+
+
 def _work(args):
     items, part, workdir, thorough = args
     common.import_repo()
     skipped = 0
     with open(part, 'w') as fh:
         for tid, seed, cfgcls in items:
-            tr = run_case(tid, seed, cfgcls, workdir, thorough)
+            if isinstance(cfgcls, dict) and 'shipped' in cfgcls:
+                tr = shipped_case(tid, seed, cfgcls['shipped'], cfgcls['swap'], cfgcls['types'])
+            else:
+                tr = run_case(tid, seed, cfgcls, workdir, thorough)
             if tr is None:
                 skipped += 1
                 continue
@@ -288,6 +334,13 @@ def check(run):
     for j in range(nrand):
         tid += 1
         items.append((tid, run.seed * 1000003 + 500000 + j, None))
+    # shipped molecule pairs, both directions (the multi-residue protein pair uses the automatic restraints)
+    names = ['CUR', 'VTE', 'BF4', 'BMIM'] + ([] if quick else ['PROT'])
+    for name in names:
+        for swap in (False, True):
+            for types in ((None, (0, 1)) if quick else (None, (0, 1), (2,), (0,))):
+                tid += 1
+                items.append((tid, run.seed * 1000003 + 900000 + tid, {'shipped': name, 'swap': swap, 'types': types}))
     jobs = [(items[i::16], os.path.join(run.scratch, 'al%d.ndjson' % i), workdir, not quick) for i in range(16) if items[i::16]]
     with Pool(16) as pool:
         outs = pool.map(_work, jobs)
